@@ -145,12 +145,16 @@ class SymMode:
         """truth of a condition under the path condition (forks the path if both are feasible)"""
         return self.ctx.branch(cond.e if isinstance(cond, SBool) else cond)
 
+    def zero_sign(self, x):
+        return x
+
 
 class ConcMode:
     symbolic = False
 
-    def __init__(self, values, small_time=True):
+    def __init__(self, values, small_time=True, variant=None):
         self.values = values
+        self.variant = variant     # "negzero": zero-valued shifts are given as -0.0 (a float-only input the solver cannot propose)
         self.env = {}            # exact values actually used (floats -> Fractions), for evalz
         self.ufs = {}
         self.tarrays = {}
@@ -244,6 +248,17 @@ class ConcMode:
 
     def concretize(self, term):
         return int(evalz(term, self.env, self.ufs))
+
+    def zero_sign(self, x):
+        """x, or -0.0 where x == 0 in the 'negzero' variant"""
+        import numpy as _np
+        if self.variant != "negzero":
+            return x
+        if isinstance(x, _np.ndarray):
+            x = x.astype(float)
+            x[x == 0] = -0.0
+            return x
+        return -0.0 if x == 0 else x
 
     def decide(self, cond):
         return bool(evalz(cond.e if isinstance(cond, SBool) else cond, self.env, self.ufs))
